@@ -209,6 +209,30 @@ class Driver:
                                    json.dumps(M.jsonable(missing[4]))[:600],
                                    " | ".join(x for x in r.log if not x.startswith("write"))), dict(r.h))
             raise Abandon()
+        # Time-out. "Nothing of the reference is visible in any read shape" can be the environment (a frozen server) and stays a
+        # tool error. But if, after the whole barrier time, one read shape of the container returns the reference's rows and another
+        # still does not, the read shapes disagree for good - that is not lag (all shapes are served by the same index flush), it is
+        # exactly what the statement forbids ("every kind of read consistently ...").
+        db, rp, mst, name, got = missing
+        covered = []
+        full = (db, rp, mst) == (r.db, r.trp, r.m) and not cold
+        for name2, q, kind, params in M.shapes_for(rp, mst, full):
+            exp = M.expected(r.ref, db, rp, mst, kind, params)
+            if name2 == name or exp == M.empty_of(kind):
+                continue
+            st, js = self.srv.query(q, db=db)
+            ok, got2 = M.normalise(kind, st, js)
+            if ok == "ok" and M.covers(got2, exp, kind):
+                covered.append(name2)
+        if covered:
+            r.abandoned = True
+            self.rep.violation("read_shapes_disagree_rows_never_visible", "%s :: barrier :: %s" % (r.key, name),
+                               "history %s: %ds after the acknowledgement the read shape %s on %s.%s.%s still does not return what "
+                               "the reference holds, while %d other read shapes (%s ...) do\n  got: %s\n  statements: %s" % (
+                                   r.key, BARRIER_TIMEOUT, name, db, rp, mst, len(covered), ", ".join(covered[:4]),
+                                   json.dumps(M.jsonable(got))[:600],
+                                   " | ".join(x for x in r.log if not x.startswith("write"))), dict(r.h))
+            raise Abandon()
         raise blackbox.ToolError("visibility barrier timed out for history %s: %s" % (r.key, missing))
 
     def containers(self, r):
